@@ -151,6 +151,8 @@ func c14(c *Ctx) {
 		}
 	}
 	boundsFor(c, "C14", entries)
+	r.Infof("CTR.twofrag: %d fragment loop(s) recognised and reached (a loop of another shape is not decided)", len(c.fragLoopsSeen))
+	r.Infof("CTR.lenprefix: %d length-prefix/data pair(s) recognised and reached", len(c.lenPairsSeen))
 }
 
 var c14Parsers = func(c *Ctx) {}
